@@ -409,15 +409,15 @@ func (x *Exec) typeReadsIn(st *State, t *Term) {
 	// through several heap versions): every leaf array holds well-typed elements with respect to its own version
 	var leaves func(arr, idx *Term, depth int)
 	leaves = func(arr, idx *Term, depth int) {
-		if depth > 8 || hasFreeBound(idx) {
+		if depth > 8 || hasFreeBound(idx) || os.Getenv("GOVC_NOLEAVES") != "" {
 			return
 		}
 		switch arr.op {
 		case "ite":
-			leaves(arr.args[1], idx, depth+1)
-			leaves(arr.args[2], idx, depth+1)
-		case "store":
-			leaves(arr.args[0], idx, depth+1)
+			if depth < 4 {
+				leaves(arr.args[1], idx, depth+1)
+				leaves(arr.args[2], idx, depth+1)
+			}
 		case "select":
 			if len(arr.args) == 2 && !hasFreeBound(arr) {
 				add(Select(arr, idx), arr.args[0])
@@ -435,7 +435,7 @@ func (x *Exec) typeReadsIn(st *State, t *Term) {
 			a := t.args[0]
 			if a.op == "select" && len(a.args) == 2 {
 				add(t, a.args[0]) // element of a slice's backing array
-			} else if (a.op == "ite" || a.op == "store") && !t.sort.isArray() {
+			} else if a.op == "ite" && !t.sort.isArray() {
 				leaves(a, t.args[1], 0)
 			} else if !t.sort.isArray() {
 				add(t, a) // field map
@@ -443,7 +443,7 @@ func (x *Exec) typeReadsIn(st *State, t *Term) {
 		case len(t.op) > 3 && t.op[:3] == "at." && len(t.args) == 3:
 			if a := t.args[0]; a.op == "select" && len(a.args) == 2 {
 				add(t, a.args[0])
-			} else if a.op == "ite" || a.op == "store" {
+			} else if a.op == "ite" {
 				leaves(a, Add(t.args[1], t.args[2]), 0)
 			}
 		}
